@@ -224,7 +224,7 @@ def issues_from_validation(ctx, res, label, prop="C06"):
             if field == "cksaveVsSave" or field == "fsaveVsSave":
                 sig += ":%s:%s%s" % (_fmt_class(cf), cf["type"],
                                      _ports_class(cf["cols"]))
-            if "Refuses" in field or field.endswith("Err"):
+            if "Refuses" in field or field.endswith("Err") or field.startswith("cbOn"):
                 props.add("C11")
             what = ("%s: cksave/save/fsave outcome not explained by "
                     "FileFmt!SaveVerdict at '%s' (case %s): ck=%s sv=%s fs=%s; "
@@ -246,6 +246,16 @@ def issues_from_validation(ctx, res, label, prop="C06"):
                     "independent reader, does not denote the object at '%s' "
                     "(case %s): %s" % (label, field, cf["id"],
                                        (f["event"] or "").strip()[:300]))
+        elif evname in ("Load", "FLoad") and field in ("cbOnSuccess",
+                                                       "cbOnFailure"):
+            props.add("C11")
+            sig = "FileFmt:Load:%s:%s:%s:%s" % (
+                field, ev.get("err"), ev.get("msg"),
+                "+".join(x.get("cat", "?") for x in ev.get("cb", [])))
+            what = ("%s: vnadata_%s broke the error-reporting protocol of "
+                    "vnaerr(3) (%s) (case %s): %s" %
+                    (label, evname.lower(), field, cf["id"],
+                     (f["event"] or "").strip()[:300]))
         elif evname in ("Load", "FLoad"):
             forms = _fmt_class(cf)
             loadable = any(x not in ("IL", "RL", "VSWR") for x in forms.split("+"))
@@ -603,7 +613,7 @@ def choose_pairs(table, tier, seed, quick_n=1300):
     rng = random.Random(seed)
     rng.shuffle(allp)
     dims = ("fr", "unit", "fmt", "mf", "ord", "deco", "num", "lb", "acc", "ref",
-            "mfx", "noise")
+            "mfx", "noise", "tol")
     need = {}
     chosen = []
     rest = []
@@ -726,7 +736,13 @@ def issues_c08(ctx, res, label, sidecar):
         else:
             s = ev.get("s", {})
             c = ev.get("c", {})
-            if evname == "NLoad":
+            if field in ("cbOnSuccess", "cbOnFailure"):
+                props.add("C11")
+                sig = "Spell:%s:%s:%s:%s:%s%s" % (
+                    evname, field, ev.get("err"), ev.get("msg"),
+                    "+".join(x.get("cat", "?") for x in ev.get("cb", [])),
+                    ":tol=" + s.get("tol") if s.get("tol", "none") != "none" else "")
+            elif evname == "NLoad":
                 if field == "ok":
                     sig = "Spell:NLoad:ok:%s:%s%s" % (
                         ev.get("err"), ev.get("msg"),
@@ -919,7 +935,7 @@ def issues_ext(ctx, res, label, prop):
         props = {prop}
         if evname == "SetFmt":
             sig = "Fmt:SetFmt:%s:%s" % (field, "".join(ev.get("toks", [])))
-            if field in ("refuses", "err", "keptOnFailure"):
+            if field in ("refuses", "err", "keptOnFailure", "cbOnSuccess"):
                 props.add("C11")
             what = ("%s: vnadata_set_format / get_format on tokens %s: '%s' not "
                     "as FileFmt!ParseFormat says: %s; spec: %s" %
@@ -930,7 +946,7 @@ def issues_ext(ctx, res, label, prop):
             sig = "Stick:%s:%s:%s:%s" % (field, op.get("op"),
                                          op.get("ext", op.get("ft")),
                                          op.get("kind", ""))
-            if field == "refused":
+            if field == "refused" or field.startswith("cbOn"):
                 props.add("C11")
             what = ("%s: file type memory: %s after %s; spec: %s" %
                     (label, field, (f["event"] or "").strip()[:300],
